@@ -123,6 +123,36 @@ func readExactly(r io.Reader, n int64) ([]byte, error) {
 	return buf, nil
 }
 
+// checkTrunSampleCount checks the sample count of a trun box, that comes from a file that may be damaged,
+// against the size of the box. When a trun has no per-sample fields, the parser does not run
+// out of data and allocates an entry for each announced sample.
+func checkTrunSampleCount(payloadStart []byte, payloadSize uint64) error {
+	if len(payloadStart) < 8 {
+		return fmt.Errorf("invalid trun box")
+	}
+
+	flags := uint32(payloadStart[1])<<16 | uint32(payloadStart[2])<<8 | uint32(payloadStart[3])
+	sampleCount := uint32(payloadStart[4])<<24 | uint32(payloadStart[5])<<16 |
+		uint32(payloadStart[6])<<8 | uint32(payloadStart[7])
+
+	entrySize := uint64(0)
+	for _, flag := range []uint32{0x100, 0x200, 0x400, 0x800} {
+		if (flags & flag) != 0 {
+			entrySize += 4
+		}
+	}
+
+	if entrySize == 0 {
+		entrySize = 1
+	}
+
+	if uint64(sampleCount)*entrySize > payloadSize {
+		return fmt.Errorf("invalid trun box: sample count exceeds box size")
+	}
+
+	return nil
+}
+
 func segmentFMP4ReadHeader(r io.ReadSeeker) (*fmp4.Init, time.Duration, error) {
 	// check and skip ftyp
 
@@ -410,6 +440,11 @@ outer:
 			return 0, err
 		}
 
+		err = checkTrunSampleCount(buf2, uint64(len(buf2)))
+		if err != nil {
+			return 0, err
+		}
+
 		var trun amp4.Trun
 		_, err = amp4.Unmarshal(bytes.NewReader(buf2), uint64(len(buf2)), &trun, amp4.Context{})
 		if err != nil {
@@ -533,6 +568,19 @@ func segmentFMP4MuxParts(
 			durationMP4 = durationGoToMp4(duration, track.TimeScale)
 
 		case "trun":
+			if h.BoxInfo.Size < h.BoxInfo.HeaderSize {
+				return nil, fmt.Errorf("invalid trun box")
+			}
+			payloadStart := make([]byte, 8)
+			_, err := r.ReadAt(payloadStart, int64(h.BoxInfo.Offset+h.BoxInfo.HeaderSize))
+			if err != nil {
+				return nil, err
+			}
+			err = checkTrunSampleCount(payloadStart, h.BoxInfo.Size-h.BoxInfo.HeaderSize)
+			if err != nil {
+				return nil, err
+			}
+
 			box, _, err := h.ReadPayload()
 			if err != nil {
 				return nil, err
